@@ -59,7 +59,9 @@ def _sites(tier):
     for v in ("[0, 'a']", "(0,)", "{'k0': 0, 'k1': [1]}", "DC(x=1, y=2)", "'a'", "[(3+5j)]", "{0, 1}", "-1", "NT(a=1, b=2)", "'a\\nb'"):
         for st, txt in R.renderings(v, R.STYLES):
             sites.append({"st": "assert %s == snapshot(%s)" % (v, txt), "n": [v]})
-    sites += [{"st": s, "n": ["DC"]} for s in (
+    sites += [{"st": s, "n": ["DC", "NT", "AT", "PM"]} for s in (
+        "assert DC(x=1, y=2, z=[3]) == snapshot(DC(x=1))", "assert DC(x=1, y=2, z=[3]) == snapshot(DC(1))", "assert NT(a=1, b=2) == snapshot(NT(a=1, b=3))",
+        "assert AT(a=1, b=2, c=[3]) == snapshot(AT(a=1))", "assert PM(a=1, b=2) == snapshot(PM(a=0))",
         "assert 5 <= snapshot(7)", "assert 5 >= snapshot(2)", "assert 5 in snapshot([5, 6])", "assert 5 in snapshot([4+0, 5, 6])",
         "assert snapshot({'a': 5, 'b': 1})['a'] == 5", "assert snapshot({'a': 5+0, 'b': 1})['c'] == 6",
         "assert 5 == snapshot(2+3)", "assert 5 <= snapshot(2+3)", "assert 5 in snapshot([2+3, 1+0])", "assert 'ab' == snapshot('a' 'b')",
@@ -148,7 +150,9 @@ def _judge_plugin(cases):
 
     F = cases[0]["F"]
     src = _module(cases)
-    d = plugin.mk_project({"test_something.py": src, "pyproject.toml": ""})
+    # a second file whose only pending change belongs to the first category: categories are previewed per file
+    second = "from inline_snapshot import snapshot\n\n\ndef test_other():\n    assert 5 == snapshot()\n"
+    d = plugin.mk_project({"test_something.py": src, "test_zz_other.py": second, "pyproject.toml": ""})
     out = []
     try:
         arg = ["--inline-snapshot=" + ",".join(F)]
